@@ -95,7 +95,7 @@ extern "C" long call_with_junk_regs(void *fn, void *arg, uint64_t junk);   // C1
 // ------------------------------------------------------------------ SimMem
 enum { MEM_SLAB = 0, MEM_END_FLUSH = 1, MEM_START_FLUSH = 2 };
 struct ArgArea {
-    static const size_t DATA = 16384;
+    static const size_t DATA = 262144;   // large enough for single calls of tens of kilobytes
     uint8_t *map = nullptr;     // [guard page][DATA][guard page]
     uint8_t *data() const { return map + 4096; }
     uint8_t fillb = 0;
